@@ -340,9 +340,15 @@ func (a *addrRec) Handle(cx *layer4.Connection, next layer4.Handler) error {
 }
 
 // phRec reads the connection's address placeholders the way later handlers do.
-type phRec struct{ remote, local string }
+type phRec struct {
+	remote, local      string
+	inHeader, inPeer   *layer4.MatchRemoteIP
+	sawHeader, sawPeer bool
+}
 
 func (a *phRec) Handle(cx *layer4.Connection, next layer4.Handler) error {
+	a.sawHeader, _ = a.inHeader.Match(cx)
+	a.sawPeer, _ = a.inPeer.Match(cx)
 	repl := cx.Context.Value(layer4.ReplacerCtxKey).(*caddy.Replacer)
 	if v, ok := repl.Get("l4.conn.remote_addr"); ok {
 		if ad, ok := v.(net.Addr); ok && ad != nil {
@@ -371,13 +377,18 @@ func VH_pp_placeholders() {
 	pp := &l4proxyprotocol.Handler{}
 	vapi.Assert(pp.Provision(caddy.Context{}) == nil, "provision")
 	l4proxyprotocol.VerifQuiet(pp)
-	ph := &phRec{}
+	ph := &phRec{inHeader: &layer4.MatchRemoteIP{Ranges: []string{"192.0.2.0/24"}}, inPeer: &layer4.MatchRemoteIP{Ranges: []string{"10.0.0.0/8"}}}
+	vapi.Assert(ph.inHeader.Provision(caddy.Context{}) == nil && ph.inPeer.Provision(caddy.Context{}) == nil, "provision")
+	// before the header is read the peer is what remote_ip sees (a route selecting the proxy_protocol handler)
+	before, _ := ph.inPeer.Match(cx)
+	vapi.Assert(before, "remote_ip does not see the peer before the PROXY header is accepted")
 	st.base = hdrLen
 	err := chain(pp, ph, recNext{rec{tag: "after-proxy-protocol"}}).Handle(cx)
 	vapi.Assert(err == nil, "handler failed")
 	vapi.Cover("placeholders read after the header")
 	vapi.Assert(ph.remote == "192.0.2.1:1000", "placeholder l4.conn.remote_addr does not name the source address the PROXY header declares")
 	vapi.Assert(ph.local == "192.0.2.2:2000", "placeholder l4.conn.local_addr does not name the destination address the PROXY header declares")
+	vapi.Assert(ph.sawHeader && !ph.sawPeer, "a remote_ip matcher after the PROXY header does not see the source address the header declares")
 }
 
 func VH_pp_allow() {
